@@ -14,7 +14,7 @@ RULE = ("case = (protocol version 2|3; 48-bit device id; for V3 a 64-byte token 
         "applied = full settable state; initial = independent device state incl. display, sensors, filter flag; per-exchange "
         "delivery script: cut set and inter-chunk gap (V3: any cut set incl. byte-by-byte and coalescing; V2: one segment per "
         "packet) and 0..3 unsolicited frames before/after the solicited reply from {duplicate of the reply, spontaneous 0xC0 "
-        "report of the old/current state, 0xA0/0xA1 reports, type-5 0xB5 notification}). (a) client A refreshes, sets every "
+        "report of the old/current state, 0xA0/0xA1 reports, type-5 0xB5 notification}; optionally the device pushes such frames on the idle connection before the apply). (a) client A refreshes, sets every "
         "attribute, apply(): the model device's state decoded with its own vendor-layout decoder must equal applied field by "
         "field, non-settable fields unchanged, no frame rejected, every packet carries the configured device id, and A's "
         "attributes equal applied. (b) a fresh client B (new object, connection, handshake) refresh(): B's attributes equal the "
@@ -76,6 +76,17 @@ def _check_once(case: dict):
         a = await connect()
         await a.refresh()
         res["a_online"] = a.online
+        if case.get("idle_push"):
+            # while client A is idle the device pushes reports on A's connection (they are already waiting when A calls next)
+            import asyncio
+            conn_a = dev.conns[-1]
+            push = {"STATE": m.state_frame(0x03), "A0": None, "B5N": None}
+            from .. import refcodec as rc
+            for tok in case["idle_push"]:
+                fr = m.state_frame(0x03) if tok == "STATE" else (rc.frame_build(0x05, bytes([0xA0]) + bytes(range(1, 22)), proto=3) if tok == "A0"
+                                                                 else rc.frame_build(0x05, bytes([0xB5, 0x01, 0x12, 0x02, 0x01, 0x01]), proto=3))
+                conn_a.tr.feed_later(0.01, dev.wrap(conn_a, fr))
+            await asyncio.sleep(0.1)
         acutil.set_attrs(a, applied)
         await a.apply()
         res["a_attrs"] = acutil.read_attrs(a)
@@ -184,7 +195,8 @@ def cases():
     return st.fixed_dictionaries({
         "version": st.sampled_from([2, 3, 3]), "id": gens.device_ids(48), "token": hexb(gens.tokens64()), "key": hexb(gens.keys32()),
         "token_form": st.sampled_from(["bytes", "hex"]), "key_form": st.sampled_from(["bytes", "hex"]),
-        "applied": gens.settable_states(), "initial": gens.device_states(), "script": st.lists(exch, min_size=0, max_size=4)})
+        "applied": gens.settable_states(), "initial": gens.device_states(), "script": st.lists(exch, min_size=0, max_size=4)},
+        optional={"idle_push": st.lists(st.sampled_from(["STATE", "STATE", "A0", "B5N"]), min_size=1, max_size=3)})
 
 
 def run(ctx) -> None:
